@@ -6,10 +6,15 @@
     outs <min> <max> <progA> <progB>  prog = comma separated S | F<job> | C   ("-" = empty)
         every interleaving of the two client threads and all workers (coarse semantics); prints the
         sorted set of snapshots of the states in which nothing can move any more, separated by " ; "
+    job <hs 0|1|2> <hook raises 0|1> {req 0..5}*   effects of ClientConnectionJob.__call__ + " still" | " done"
+    deny <raises 0|1>                              effects of denyConnection
+    accept <commtimeout 0|1> <pool full 0|1> <raises 0|1>   effects of one accept step
+        effects as comma separated codes (PoolConn.Eff.code), "-" = none
   snapshot:  c<closed> i<|idle|> b<|busy|> J <job>* W <worker>*
         job = a<worker>|n|x  r<times started> e<ended>      worker = X exited | I waiting for a job | R<job> | P (can move)
 -/
 import PyroModel.Pool
+import PyroModel.PoolConn
 import Driver.Util
 import Std.Data.HashSet
 
@@ -123,7 +128,24 @@ def dedupSorted (l : List String) : List String :=
   let a := l.toArray.qsort (· < ·)
   a.toList.eraseDups
 
+def hsOfTok : String → Option PoolConn.Hs
+  | "0" => some .ok | "1" => some .refused | "2" => some .raises | _ => none
+
+def reqOfTok : String → Option PoolConn.Req
+  | "0" => some .served | "1" => some .connClosed | "2" => some .sockError | "3" => some .security
+  | "4" => some .timeout | "5" => some .otherError | _ => none
+
+def effStr (l : List PoolConn.Eff) : String := natListToString (l.map PoolConn.Eff.code)
+
 def step' : List String → String
+  | "job" :: hs :: hook :: reqs =>
+    match hsOfTok hs, reqs.mapM reqOfTok with
+    | some h, some rs =>
+      let p := PoolConn.jobCall h rs (hook == "1")
+      effStr p.1 ++ (if p.2 then " still" else " done")
+    | _, _ => "bad-op"
+  | ["deny", r] => effStr (PoolConn.deny (r == "1"))
+  | ["accept", ct, full, r] => effStr (PoolConn.acceptStep (ct == "1") (full == "1") (r == "1"))
   | "seq" :: mn :: mx :: n :: rest =>
     match mn.toNat?, mx.toNat?, n.toNat?.bind (fun k => parseSeq k rest) with
     | some mn, some mx, some ops => " ; ".intercalate (runSeq mn mx ops)
